@@ -690,6 +690,17 @@ def symmap_method(it, m, name, node):
 def symlist_method(it, lst, name, node):
     if name == 'append':
         return Builtin('list.append', lambda it_, a, k, n: lst.append(a[0]))
+    if name == 'pop':
+        def pop(it_, a, k, n):
+            if a or k:
+                raise Unsupported('list.pop(index) of symbolic list')
+            it_.raise_if(lst.length <= 0, 'IndexError', 'list-index:pop', n)
+            last = symlist_at(it_, lst, -1, n)
+            lst._write('length', z3.simplify(lst.length - 1))
+            if isinstance(lst.origin, tuple):
+                lst._write('origin', ('popped', lst.origin))
+            return last
+        return Builtin('list.pop', pop)
     raise Unsupported('method %s of symbolic list' % name)
 
 
